@@ -30,6 +30,10 @@ UESC = ["\\u", "\\u{", "\\x", "{", "}", "+", "-", "61", "0061", "0", "d83d", "\\
 PROPS = ["\\p", "\\P", "{", "}", "L", "Lu", "gc", "=", "Script", "Greek", "RGI_Emoji", "Any", "[", "[^", "]", "a", "lu", "sc",
          "Script_Extensions", "Grek", "_", " "]
 
+# where the capture-group pre-scan and the parser proper must agree on what is a group
+PRESCAN = ["[[]", "[\\]]", "[(]", "[)]", "[(?<n>]", "\\(", "\\[", "(a)", "(?<n>a)", "(?<n>b)", "\\1", "\\2", "\\k<n>", "\\k<m>", "(?:", ")", "|",
+           "[a", "]", "[^", "\\]", "[[a]]", "(?<=(b))", "[\\q{(}]"]
+
 # name -> (tokens, wrap or None, maxlen quick, maxlen thorough)
 FAMILIES = {
     "chars": (CHARS, None, 3, 4),
@@ -37,8 +41,9 @@ FAMILIES = {
     "class": (CLASS, ("[", "]"), 3, 3),
     "negclass": (CLASS, ("[^", "]"), 2, 3),
     "names": (NAMES, None, 4, 5),
-    "uescape": (UESC, None, 4, 6),
+    "uescape": (UESC, None, 4, 5),
     "props": (PROPS, None, 4, 5),
+    "prescan": (PRESCAN, None, 3, 4),
 }
 
 
